@@ -191,12 +191,82 @@ pub fn oh_type(f: &ROH) -> (Vec<usize>, Vec<usize>) {
     )
 }
 
-/// a pair composable at the boundary (f ; g defined)
+/// an edge-less diagram (a spider) whose source type is `ty`: identity-like, permutation-like, or
+/// with equal / unequal NON-INJECTIVE legs, possibly with isolated nodes
+pub fn cospan_with_source(r: &mut Rng, src_ty: &[usize], p: &HgParams) -> ROH {
+    let k = src_ty.len();
+    // nodes: merge boundary points of equal label at random
+    let mut w: Vec<usize> = vec![];
+    let mut s_table = vec![];
+    let merge = r.below(3); // 0: never (bijective leg), 1: sometimes, 2: as much as possible
+    for &lab in src_ty {
+        let cands: Vec<usize> = (0..w.len()).filter(|i| w[*i] == lab).collect();
+        if !cands.is_empty() && (merge == 2 || (merge == 1 && r.chance(1, 2))) {
+            s_table.push(*r.pick(&cands));
+        } else {
+            w.push(lab);
+            s_table.push(w.len() - 1);
+        }
+    }
+    match r.below(4) {
+        0 => {
+            // pad with isolated nodes so that the leg has as many entries as there are nodes or fewer
+            for _ in 0..r.size(2) {
+                w.push(r.below(p.node_labels));
+            }
+        }
+        1 => {
+            // as many boundary points as nodes although the leg is not injective
+            while w.len() < k {
+                w.push(r.below(p.node_labels));
+            }
+        }
+        _ => {}
+    }
+    let nn = w.len();
+    let t_table = match r.below(4) {
+        0 | 1 => s_table.clone(), // equal legs
+        2 => {
+            let mut t = s_table.clone();
+            r.shuffle(&mut t);
+            t
+        }
+        _ => ff_to(r, p.max_arity + 1, nn).table,
+    };
+    ROH {
+        s: RFF::new(s_table, nn),
+        t: RFF::new(t_table, nn),
+        h: RHG { s: RICF::from_segs(&[], nn), t: RICF::from_segs(&[], nn), w, x: vec![] },
+    }
+}
+
+pub fn dagger(f: &ROH) -> ROH {
+    ROH { s: f.t.clone(), t: f.s.clone(), h: f.h.clone() }
+}
+
+/// a pair composable at the boundary (f ; g defined); now and then one operand is a spider
 pub fn composable_pair(r: &mut Rng, p: &HgParams) -> (ROH, ROH) {
-    let f = oh(r, p);
-    let (_, b) = oh_type(&f);
-    let g = oh_with_source(r, &b, p);
-    (f, g)
+    match r.below(8) {
+        0 | 1 => {
+            let f = oh(r, p);
+            let (_, b) = oh_type(&f);
+            let g = cospan_with_source(r, &b, p);
+            (f, g)
+        }
+        2 => {
+            // spider on the left: its dagger has the wanted TARGET type
+            let g = oh(r, p);
+            let (a, _) = oh_type(&g);
+            let f = dagger(&cospan_with_source(r, &a, p));
+            (f, g)
+        }
+        _ => {
+            let f = oh(r, p);
+            let (_, b) = oh_type(&f);
+            let g = oh_with_source(r, &b, p);
+            (f, g)
+        }
+    }
 }
 
 pub fn knobs_oh(c: &mut Ctx, f: &ROH) {
